@@ -80,8 +80,8 @@ def argv_of(f, paths):
         a += flag("r")
     if f["out"] == "P":
         a += flag("P", paths["P"])
-    elif f["out"] == "o":
-        a += flag("o", paths["o"])
+    elif f["out"] in ("o", "olong"):
+        a += flag("o", paths[f["out"]])
     elif f["out"] == "Pbad":
         a += flag("P", paths["bad"])
     return a
@@ -190,11 +190,11 @@ def run(prop, tier, replay=None):
 
         def one(idx_case):
             idx, (f, opt, prog) = idx_case
-            paths = {"P": os.path.join(d, "out%d.bin" % idx), "o": "obj%d" % idx, "bad": os.path.join(d, "no-such-dir", "x.bin")}
+            paths = {"P": os.path.join(d, "out%d.bin" % idx), "o": "obj%d" % idx, "olong": "obj%d" % idx + "x" * 150, "bad": os.path.join(d, "no-such-dir", "x.bin")}
             # -o gets a name relative to cwd = d: asmline refuses -o names that contain a '.', which a directory name may
             argv = [exe] + argv_of(f, paths)
             text = PROGRAMS[prog][0]
-            pre_target = paths["P"] if f["out"] == "P" else (os.path.join(d, paths["o"] + ".bin") if f["out"] == "o" else None)
+            pre_target = paths["P"] if f["out"] == "P" else (os.path.join(d, paths[f["out"]] + ".bin") if f["out"] in ("o", "olong") else None)
             if pre_target and f.get("pre", "none") != "none":
                 open(pre_target, "wb").write(b"\xee" * (4096 if f["pre"] == "long" else 1))
             try:
